@@ -16,4 +16,14 @@ UNITS = [
     U("C13.nonce_gen_counter_contract", ["C13"], "harness/C13/nonce_gen_contract.c", "h_nonce_gen_counter_contract", enforce=["secp256k1_musig_nonce_gen_counter"],
       replace=NG_OR, assumed=NG_ASSUMED, functions=["secp256k1_musig_nonce_gen_counter", "secp256k1_musig_nonce_gen_internal"], timeout=600, min_obl=300, replay=False, unwind=134,
       note="DFCC-enforced contract incl. assigns frame"),
+    U("C13.nonce_gen", ["C13", "C12"], "harness/C13/nonce_gen.c", "h_nonce_gen", replace=NG_OR, assumed=NG_ASSUMED,
+      functions=["secp256k1_musig_nonce_gen", "secp256k1_musig_nonce_gen_internal", "secp256k1_musig_secnonce_save", "secp256k1_musig_secnonce_invalidate",
+                 "secp256k1_memczero", "secp256k1_is_zero_array", "secp256k1_pubkey_load", "secp256k1_keyagg_cache_load", "secp256k1_eckey_pubkey_serialize33", "secp256k1_ge_to_bytes"],
+      timeout=600, min_obl=300, replay=False, unwind=134,
+      note="harness-enforced API contract over NULL/non-NULL x arbitrary bytes of all eight pointer arguments"),
+    U("C13.nonce_gen_counter", ["C13", "C12"], "harness/C13/nonce_gen.c", "h_nonce_gen_counter", replace=NG_OR, assumed=NG_ASSUMED,
+      functions=["secp256k1_musig_nonce_gen_counter", "secp256k1_musig_nonce_gen_internal", "secp256k1_write_be64", "secp256k1_keypair_sec", "secp256k1_keypair_pub",
+                 "secp256k1_musig_secnonce_save", "secp256k1_musig_secnonce_invalidate"],
+      timeout=600, min_obl=300, replay=False, unwind=134,
+      note="harness-enforced API contract; carries the C12 counter-wiring clause (kills the measured 'low 32 bits' mutant)"),
 ]
